@@ -165,7 +165,7 @@ def make_spec(case):
             pages.append(page)
         rgs.append({"num_rows": g["b"] - g["a"] + 1,
                     "columns": [{"path": ["x"], "codec": case["codec"], "dictionary": dictionary, "pages": pages,
-                                 "statistics": None}]})
+                                 "statistics": "auto" if case.get("stats") == "exact" else None}]})
     if not rgs:
         rgs = []
     return {"created_by": "parquet-mr version 1.12.0 (build abc)" if case["creator"] == "other"
@@ -180,6 +180,11 @@ def case_sig(case):
     bp = any(r[0] == "bp" for p in pages for r in p["index_runs"])
     if any(p["enc"] == "DELTA" for p in pages):
         cause = "delta-binary-packed page"
+    elif (case["creator"] != "other" and case.get("stats") == "exact" and case["optional"]
+          and any(all(k >= 0 for k in case["cells"][g["a"] - 1:g["b"]]) and
+                  any(p["v"] == 1 and not (len(p["def_runs"]) == 1 and p["def_runs"][0][0] == "rle") for p in g["pages"])
+                  for g in case["rgs"])):
+        cause = "null-free OPTIONAL chunk (null_count = 0) whose level block is not one RLE run, in a file whose created_by names fastparquet"
     elif widths and max(widths) >= 25 and bp:
         cause = "bit-packed dictionary indices of width >= 25"
     elif widths and case["creator"] != "other" and any(w in (8, 16, 32) for w in widths):
@@ -251,7 +256,7 @@ LATTICES = {
                                          RgSplits=1, PageSplits=2, Encodings="EncDict", DefRunStyles="RunsRle",
                                          IndexRunStyles="RunsAll", IndexWidthStyles="WidthsAll", Codecs="CodecNone",
                                          CompressedFlags="FlagAbsent", Creators="CreatorsBoth"),
-    "C-definition-level-runs": dict(Kinds="KindsDict", RowCounts="Rows6", NullPats="PatsAll", Optionals="OnlyOpt",
+    "C-definition-level-runs": dict(Kinds="KindsDict", RowCounts="Rows6b", NullPats="PatsAll", Optionals="OnlyOpt", StatsChoices="StatsBoth",
                                     RgSplits=1, PageSplits=2, Encodings="EncPlain", DefRunStyles="RunsAll",
                                     IndexRunStyles="RunsRle", IndexWidthStyles="WidthMin", Codecs="CodecNone",
                                     CompressedFlags="FlagAbsent", Creators="CreatorsBoth"),
@@ -274,7 +279,7 @@ LATTICES = {
 }
 FULL = dict(Kinds="KindsAll", RowCounts="Rows6", NullPats="PatsAll", Optionals="BoolBoth", RgSplits=2, PageSplits=3,
             Encodings="EncAll", DefRunStyles="RunsAll", IndexRunStyles="RunsAll", IndexWidthStyles="WidthsAll",
-            Codecs="CodecsAll", CompressedFlags="FlagsAll", Creators="CreatorsBoth", DictPads="PadsSmall")
+            Codecs="CodecsAll", CompressedFlags="FlagsAll", Creators="CreatorsBoth", DictPads="PadsSmall", StatsChoices="StatsBoth")
 
 
 def export(work, consts, tag, simulate=None, seed=0):
@@ -283,6 +288,7 @@ def export(work, consts, tag, simulate=None, seed=0):
     c.setdefault("ValPats", "<- ValsPerm")
     c.setdefault("Versions", "<- V12")
     c.setdefault("DictPads", "<- PadNone")
+    c.setdefault("StatsChoices", "<- StatsAbsent")
     T.write_cfg(cfg, spec="Spec", constants=c, invariants=["Valid", "Export"], check_deadlock=False)
     if simulate:
         res = T.run_tlc("FormatMC", cfg, work, timeout=1800, simulate="num=%d" % simulate, depth=40, seed=seed, workers=8)
